@@ -6,6 +6,9 @@ CHECKS = {
  "C15": dict(cat="exploration", tech="bounded-exhaustive enumeration of ambient environments (all ordered lists <=3 entries over a 47-entry alphabet) on the real GetHardenedEnv, raw-envp children, recorded loader environment",
    text="Every environment of up to three entries from an alphabet of hostile, differently-cased, look-alike and unrelated variables is installed for real and the returned slice is resolved under four resolution rules; a fake go binary records what the real package loader hands to the go command. Exhaustive within the alphabet/length bound, which is the right level for a pure function of a finite multiset.",
    note="Trusted: os/exec and the go command resolve duplicate keys as documented; alphabet values are representative of hostile values.", ref="3/C15"),
+ "C20": dict(cat="exploration", tech="bounded-exhaustive enumeration of path spellings (<=3/<=4 segments over an 18-name alphabet, 6 bases, read-only and read-write) against an independent kernel-semantics resolver",
+   text="Every spelling within the bound is handed to the real NewPebbleScanner, read-only on the real file system and read-write with Pebble redirected to an in-memory file system (verif hook), and the refusal is compared with an independent resolver. Exhaustive within the bound; the space of spellings is the property's quantifier.",
+   note="Trusted: the reference resolver (40 lines, kernel path-walk semantics); the protected list is the one the code documents; '..' after a missing component is skipped.", ref="3/C20"),
 }
 NOT_YET = {}
 ALL = ["C%02d" % i for i in range(1, 21)]
